@@ -826,3 +826,78 @@ func varargElems(v ssa.Value, n int) []ssa.Value {
 	}
 	return out
 }
+
+// listCallees prints every callee of the repository functions with its classification.
+func (e *Engine) listCallees(filter string) {
+	count := map[string]int{}
+	class := map[string]string{}
+	var keys []string
+	for k, f := range e.funcs {
+		if filter != "" && !strings.Contains(k, filter) {
+			continue
+		}
+		if e.isSpecFunc(f) {
+			continue
+		}
+		for _, b := range f.Blocks {
+			for _, ins := range b.Instrs {
+				ci, ok := ins.(ssa.CallInstruction)
+				if !ok {
+					continue
+				}
+				c := ci.Common()
+				var key, cl string
+				if c.IsInvoke() {
+					ks := ifaceKeys(c)
+					key = "invoke " + ks[0]
+					cl = "unknown"
+					for _, k2 := range ks {
+						if e.specs.Contracts["iface:"+k2] != nil {
+							cl = "contract"
+						} else if pureIface[k2] {
+							cl = "pure"
+						}
+					}
+				} else if sc := c.StaticCallee(); sc != nil {
+					key = shortFuncKey(sc)
+					switch {
+					case e.contractFor(sc) != nil:
+						cl = "contract"
+					case e.specs.Contracts["lib:"+key] != nil:
+						cl = "libcontract"
+					case pureFuncs[key]:
+						cl = "pure"
+					case noEffectFuncs[key]:
+						cl = "noeffect"
+					case strings.HasPrefix(key, "(*sync."):
+						cl = "model"
+					default:
+						cl = "unknown"
+						if sc.Pkg != nil && e.isRepoPkg(sc.Pkg.Pkg) {
+							cl = "repo-nocontract"
+						}
+					}
+				} else if _, ok := c.Value.(*ssa.Builtin); ok {
+					continue
+				} else {
+					key = "dynamic " + c.Value.Type().String()
+					cl = "unknown"
+				}
+				if count[key] == 0 {
+					keys = append(keys, key)
+				}
+				count[key]++
+				class[key] = cl
+			}
+		}
+	}
+	sort.Slice(keys, func(i, j int) bool {
+		if class[keys[i]] != class[keys[j]] {
+			return class[keys[i]] < class[keys[j]]
+		}
+		return keys[i] < keys[j]
+	})
+	for _, k := range keys {
+		fmt.Printf("%-16s %4d  %s\n", class[k], count[k], k)
+	}
+}
